@@ -98,7 +98,8 @@ func init() {
 			"groupcontext's WaitGroup (only used by HotSwap, which is not among the explored operations) stays on the real sync package",
 		},
 		BudgetQuick: 280 * time.Second, BudgetThorough: 1700 * time.Second,
-		Prepare: PrepareSchedRuntime,
+		Prepare:     PrepareSchedRuntime,
+		CaseTimeout: 1500 * time.Second,
 		Run: func(w *W) {
 			drivers := c20drivers()
 			quick := w.Env.Quick()
@@ -161,6 +162,7 @@ func init() {
 							if rep.Capped {
 								w.Note(fmt.Sprintf("%s: time/exec cap hit after %d executions; completed bound %d", id, rep.Executions, rep.BoundCompleted))
 								c.Count("capped_drivers")
+								c.Partial()
 							}
 							if rep.WithBlocking == 0 {
 								// not a property violation: a vacuity guard for the reader of the evidence
